@@ -3,6 +3,7 @@
 //! Exit codes: 0 = ran to completion (verdicts are in the output files; the `check` driver decides),
 //! 2 = tool error. This binary never prints VIOLATION lines itself.
 
+mod conc;
 mod disk;
 mod gate;
 mod hybrid;
@@ -198,6 +199,28 @@ fn disk_run(args: &[String]) {
     println!("{}", json!({"scripts": n, "events": events, "probes": probes}));
 }
 
+fn mem_conc(args: &[String]) {
+    let cfg = load_cfg(args);
+    let ppath = arg(args, "--params").unwrap_or_else(|| die("--params missing"));
+    let prm: conc::ConcParams =
+        serde_json::from_str(&std::fs::read_to_string(&ppath).unwrap_or_else(|e| die(format!("{ppath}: {e}"))))
+            .unwrap_or_else(|e| die(format!("{ppath}: {e}")));
+    let trace_path = arg(args, "--trace").unwrap_or_else(|| die("--trace missing"));
+    let seed: u64 = arg(args, "--seed").and_then(|s| s.parse().ok()).unwrap_or(1);
+    let hang_secs: u64 = arg(args, "--hang-secs").and_then(|s| s.parse().ok()).unwrap_or(60);
+    // watchdog: the whole batch of runs takes well under a second per run
+    let limit = hang_secs + prm.runs as u64 / 4;
+    std::thread::spawn(move || {
+        std::thread::sleep(std::time::Duration::from_secs(limit));
+        eprintln!("harness: concurrent runs did not finish within {limit}s (deadlock?)");
+        std::process::exit(4);
+    });
+    let mut w = std::io::BufWriter::new(std::fs::File::create(&trace_path).unwrap_or_else(|e| die(format!("{trace_path}: {e}"))));
+    let (runs, events) = conc::run(&cfg, &prm, seed, &mut w).unwrap_or_else(|e| die(e));
+    w.flush().unwrap_or_else(|e| die(format!("flush: {e}")));
+    println!("{}", json!({"runs": runs, "events": events}));
+}
+
 fn load_cfg(args: &[String]) -> mem::MemCfg {
     let cfg_path = arg(args, "--cfg").unwrap_or_else(|| die("--cfg missing"));
     let cfg: mem::MemCfg =
@@ -232,14 +255,38 @@ fn replay_generic<E: Engine>(args: &[String], make: &(dyn Fn() -> Result<E, Stri
     // quiet panics from the code under test: they are data, reported in the result file
     std::panic::set_hook(Box::new(|_| {}));
 
+    // watchdog (C16): a script that does not finish is a hang inside the code under test (operations take
+    // microseconds); report it and stop the process with exit code 4
+    let hang_secs: u64 = arg(args, "--hang-secs").and_then(|s| s.parse().ok()).unwrap_or(30);
+    let progress: std::sync::Arc<parking_lot::Mutex<std::collections::HashMap<usize, (std::time::Instant, String)>>> =
+        Default::default();
+    {
+        let progress = progress.clone();
+        let out_path = out_path.clone();
+        std::thread::spawn(move || {
+            loop {
+                std::thread::sleep(std::time::Duration::from_millis(250));
+                let g = progress.lock();
+                if let Some((_, (_, line))) = g.iter().find(|(_, (t, _))| t.elapsed().as_secs() >= hang_secs) {
+                    let script = parse_tlc_json_line(line).unwrap_or(J::Null);
+                    let _ = std::fs::write(format!("{out_path}.hang"), json!({"hang_secs": hang_secs, "script": script}).to_string());
+                    eprintln!("harness: a script did not finish within {hang_secs}s");
+                    std::process::exit(4);
+                }
+            }
+        });
+    }
+
     let chunk = total.div_ceil(threads.max(1)).max(1);
     let results: Vec<(usize, ScriptOutcome)> = std::thread::scope(|s| {
         let mut hs = vec![];
         for (ci, part) in lines.chunks(chunk).enumerate() {
+            let progress = progress.clone();
             hs.push(s.spawn(move || {
                 let mut v = vec![];
                 for (i, line) in part.iter().enumerate() {
                     let idx = ci * chunk + i;
+                    progress.lock().insert(ci, (std::time::Instant::now(), line.clone()));
                     let script = parse_tlc_json_line(line).unwrap_or_else(|| die(format!("unparsable script line {idx}")));
                     let mut o = run_script(make, nontrivial_fn, &script).unwrap_or_else(|e| die(format!("script {idx}: {e}")));
                     let keep = o.mismatch.is_some() || (stride != usize::MAX && idx % stride == 0);
@@ -248,6 +295,7 @@ fn replay_generic<E: Engine>(args: &[String], make: &(dyn Fn() -> Result<E, Stri
                     }
                     v.push((idx, o));
                 }
+                progress.lock().remove(&ci);
                 v
             }));
         }
@@ -405,6 +453,7 @@ fn main() {
         Some("inflight-replay") => inflight_replay(&args[2..]),
         Some("hybrid-replay") => hybrid_replay(&args[2..]),
         Some("disk-run") => disk_run(&args[2..]),
+        Some("mem-conc") => mem_conc(&args[2..]),
         _ => die("usage: harness <mem-replay> ..."),
     }
 }
